@@ -520,10 +520,10 @@ func c03Values(run *evid.Run, order string, set model.Set, values []string, view
 	}
 }
 
-func toStringPayloads(l *ipfslog.IPFSLog) []string {
+func toStringPayloads(l *ipfslog.IPFSLog, n int) []string {
 	s := l.ToString(nil)
-	if s == "" {
-		return nil
+	if n == 0 {
+		return nil // (an empty log prints nothing; a single entry with an empty payload prints one empty line)
 	}
 	var out []string
 	for _, line := range strings.Split(s, "\n") {
@@ -570,7 +570,7 @@ func CheckC03(run *evid.Run) {
 			c03Values(run, h.Order, o.Set, o.Values, "Values()", where, wit)
 			c03Values(run, h.Order, o.Set, o.SnapValues, "ToSnapshot().Values", where, wit)
 			// ToString prints newest first: reversed payload order must be the same sequence
-			ps := toStringPayloads(l)
+			ps := toStringPayloads(l, len(o.Values))
 			var want []string
 			for j := len(o.Values) - 1; j >= 0; j-- {
 				want = append(want, o.Set[o.Values[j]].Payload)
